@@ -356,8 +356,10 @@ class kLeastAbsErrorsCycles(walkmodel.AbstractWalkModelDiGraph):
         solution_copy = copy.deepcopy(solution)
         non_empty_walks = []
         non_empty_weights = []
-        for walk, weight in zip(solution["walks"], solution["weights"]):
-            if len(walk) > 1:
+        internal_walks = solution.get("_walks_internal", solution["walks"])
+        for walk, weight, internal_walk in zip(solution["walks"], solution["weights"], internal_walks):
+            # (in node mode a walk made of a single node is not empty: emptiness is judged on the internal walk)
+            if len(internal_walk) > 1:
                 non_empty_walks.append(walk)
                 non_empty_weights.append(weight)
 
